@@ -43,6 +43,15 @@ def gen(rng, n, tier):
     out = []
     for i in range(n):
         c = L.gen_uamiv(rng, tier, rollover=0.25)
+        if len(c['names']) >= 2 and rng.random() < 0.3:
+            # a species whose name is a proper prefix of an EARLIER listed species (NO2 before NO): a reader that looks a
+            # species up by leading characters returns the wrong one
+            lng, sht = rng.choice([('NO2', 'NO'), ('FORMALD', 'FORM'), ('X12', 'X1'), ('PAR2', 'PAR'), ('O3N', 'O3')])
+            i = rng.randrange(len(c['names']) - 1)
+            j = rng.randrange(i + 1, len(c['names']))
+            rest = [x for k, x in enumerate(c['names']) if k not in (i, j)]
+            if lng not in rest and sht not in rest:
+                c['names'][i], c['names'][j] = lng, sht
         out.append(dict(kind='uamiv-' + c['name'], content=c))
     return out
 
